@@ -57,6 +57,11 @@ pub fn oracle(cfg: &Cfg, recs: &[DrawRec]) -> Option<(String, String)> {
         let n = ((cfg.freq * cfg.len / r.step_size).round().max(1.0).min(1e6)) as u64;
         let ndiv = r.outs.iter().filter(|x| **x == 1).count();
         if r.micro && (r.vnorm - 1.0).abs() > 1e-12 { return Some(("mclmc.unit_norm".into(), format!("draw {d}: microcanonical momentum has norm {}", r.vnorm))); }
+        // retry bookkeeping: without dynamic step size a failed leapfrog IS a divergence (no smaller retry steps); with it at most ten nested
+        // halvings are tried, so a draw that is not divergent never contains eleven failed leapfrogs in a row
+        if !cfg.dynamic && ndiv > 0 && !r.diverging { return Some(("mclmc.retry_without_dynamic".into(), format!("draw {d}: dynamic_step_size = false but a failed leapfrog was retried (leapfrog outcomes {:?}, {} steps, not divergent)", r.outs, r.num_steps))); }
+        let longest_fail_run = r.outs.iter().fold((0usize, 0usize), |(cur, best), o| if *o == 1 { (cur + 1, best.max(cur + 1)) } else { (0, best) }).1;
+        if !r.diverging && longest_fail_run > 10 { return Some(("mclmc.too_many_halvings".into(), format!("draw {d}: {longest_fail_run} failed leapfrogs in a row (more than the 10 halvings allowed) and the draw is not divergent"))); }
         if !r.diverging {
             if ndiv == 0 && r.num_steps != n { return Some(("mclmc.num_steps".into(), format!("draw {d}: {} steps without any divergence, expected max(1, round(f L / eps)) = {n}", r.num_steps))); }
             if r.num_steps < n { return Some(("mclmc.num_steps".into(), format!("draw {d}: only {} steps, base steps {n}", r.num_steps))); }
@@ -91,7 +96,7 @@ pub fn main(tier: &str, seed: u64, outdir: &str) {
         match case % 4 {
             0 => {}
             1 => { for _ in 0..(3 + r.below(6)) { faults.push(r.below(total.max(1))); } }
-            2 => { let s = r.below(total.max(1)); for j in 0..(12 + r.below(6)) { faults.push(s + j); } }
+            2 => { let s = r.below(total.max(1)); for j in 0..(9 + r.below(9)) { faults.push(s + j); } }
             _ => { for _ in 0..4 { let s = r.below(total.max(1)); for j in 0..(1 + r.below(4)) { faults.push(s + j); } } }
         }
         // the first evaluations belong to set_position (initialisation failures are C13's business)
